@@ -25,7 +25,7 @@ def run(ctx):
         "(excluded names and unselected jobs neither created nor modified, newly cloned jobs included); deep=True on every "
         "differing-file shape at job and project level; parallel in {2, True} against the sequential destination tree on all "
         "ordered 2- (thorough: 3-) shape projects, once free-running with the real ThreadPool and once under engine T: "
-        "every interleaving of the pool's threads with <= 1 (selected cases and thorough: 2) preemptions, scheduling points "
+        "every interleaving of the pool's threads with <= 1 (every third two-task pair, and thorough: 2) preemptions, scheduling points "
         "before every mutating system call, each compared with the sequential destination tree"))
     r.assumptions += ["engine T serialises the pool's threads (one runs at a time) and switches only before system calls; races "
                       "between two byte-code instructions without a system call in between are not explored",
